@@ -26,6 +26,8 @@ STRENGTHENED = {
     "C20-4": "C20: concurrent sub-check (SaveManifest next to Config.Update toggling a field between valid and invalid); found and fixed D39 on the way",
     "C02-5": "drive: a crash round that closes cleanly is also observed by the writing process itself right before the close",
     "C17-3": "C17: every service call gets a drawn request context (live / cancelled / expired); a dead-context call is judged by its aftermath only",
+    "C05-6": "C05: sessions interleave puts of NEW keys by another client between the creation of the iterator and its Seek/Next calls",
+    "C08-6": "C08: a window of steps under RLIMIT_FSIZE in the sequential variant (C03's I/O-fault sub-check, with the limit lifted mid-run, catches it too)",
     "C13-4": "C13: real Replica state machine with injected transient apply failures (error state -> recovery -> new stream)",
     "C15-4": "C15: primary with a pre-history (older log files in the directory) so that the ack path's retention pass has work to do",
 }
